@@ -54,6 +54,7 @@ class Event:
         self.loops: Tuple[Tuple[Any, ...], ...] = tuple(ctx.loops)
         self.tries: Tuple[TryInfo, ...] = tuple(ctx.tries)
         self.else_of: Tuple[TryInfo, ...] = tuple(ctx.else_of)   # try statements whose else-block contains the event
+        self.finally_of: Tuple[TryInfo, ...] = tuple(ctx.finally_of)   # try statements whose finally-block contains it (runs on failure too)
         self.withs: Tuple[Term, ...] = tuple(ctx.withs)
         self.func = ctx.fi.qualname
         self.file = ctx.fi.module.path
@@ -98,6 +99,7 @@ class Ctx:
         self.loops: List[Tuple[Any, ...]] = []
         self.tries: List[TryInfo] = []
         self.else_of: List[TryInfo] = []
+        self.finally_of: List[TryInfo] = []
         self.withs: List[Term] = []
         self.chain: Tuple[Tuple[str, int], ...] = ()
         self.depth = depth
@@ -114,6 +116,7 @@ class Ctx:
         c.loops = list(self.loops)
         c.tries = list(self.tries)
         c.else_of = list(self.else_of)
+        c.finally_of = list(self.finally_of)
         c.withs = list(self.withs)
         c.chain = self.chain + ((self.fi.qualname, line),)
         c.inl_path = self.inl_path
@@ -501,6 +504,24 @@ class _Run:
                     self.builders.setdefault(f[1], []).append((x, tuple(ctx.loops), tuple(ctx.pc)))
             elif f[2] in MUTATORS:
                 self.dirty.add(f[1])
+        elif f[0] == "a" and f[2] in MUTATORS and f[1][0] in ("comp", "list", "cat", "set", "dict") and isinstance(node.func, ast.Attribute) \
+                and isinstance(node.func.value, ast.Name) and scope is not None and scope.env.get(node.func.value.id) == f[1] and not ctx.loops:
+            # a local name that denotes a finished value (a comprehension, a display, the result of the builder idiom) and is changed in
+            # place afterwards denotes the changed value from here on
+            nm_ = node.func.value.id
+            old_v = f[1]
+            if f[2] == "append" and len(args) == 1 and not kwargs and old_v[0] in ("comp", "list", "cat") and not (old_v[0] == "comp" and old_v[1] != "list"):
+                scope.env[nm_] = self.norm.mk_binop(ast.Add(), old_v, ("list", (args[0],)), scope)
+            elif f[2] == "extend" and len(args) == 1 and not kwargs and old_v[0] in ("comp", "list", "cat") and args[0][0] in ("comp", "list", "cat", "tuple"):
+                ext = ("list", args[0][1]) if args[0][0] == "tuple" else args[0]
+                scope.env[nm_] = self.norm.mk_binop(ast.Add(), old_v, ext, scope)
+            elif f[2] == "insert" and len(args) == 2 and not kwargs and args[0] == C(0) and old_v[0] in ("comp", "list", "cat") \
+                    and not (old_v[0] == "comp" and old_v[1] != "list"):
+                scope.env[nm_] = self.norm.mk_binop(ast.Add(), ("list", (args[1],)), old_v, scope)
+            elif f[2] == "sort" and not args:
+                scope.env[nm_] = self.norm.mk_call(("g", "builtin:sorted"), [old_v], list(kwargs), scope)
+            else:
+                scope.env[nm_] = ("call", ("g", "builtin:changed_by_" + f[2]), (old_v,) + tuple(args), tuple(kwargs))
         real = [t for t in targets if not t.startswith("new:")]
         # a helper that is not part of the recorded API (extracted later by a maintainer) is transparent: its events are the
         # caller's events and its value is expanded in place, so extracting / inlining helpers changes nothing for the rules
@@ -1289,7 +1310,9 @@ class _Run:
         if not st.handlers:
             pass
         if st.finalbody:
+            ctx.finally_of.append(ti)
             of = self.block(st.finalbody)
+            ctx.finally_of.pop()
             if "fall" not in of:
                 out = of
             else:
